@@ -411,14 +411,25 @@ def _read_request(
             does not match ``REQUEST_VERSION``.
 
     """
-    reader = ValidatedReader(ipc.open_stream(reader_stream), ipc_validation)
-    batch, custom_metadata = reader.read_next_batch_with_custom_metadata()
-    # Drain past the request stream's EOS *before* any validation that
-    # might raise.  On pipe/subprocess transports the underlying reader
-    # is shared across requests, so a rejected request that left bytes
-    # in the IPC stream would corrupt the next request's framing and
-    # tear down the worker connection.
-    _drain_stream(reader)
+    try:
+        reader = ValidatedReader(ipc.open_stream(reader_stream), ipc_validation)
+        batch, custom_metadata = reader.read_next_batch_with_custom_metadata()
+        # Drain past the request stream's EOS *before* any validation that
+        # might raise.  On pipe/subprocess transports the underlying reader
+        # is shared across requests, so a rejected request that left bytes
+        # in the IPC stream would corrupt the next request's framing and
+        # tear down the worker connection.
+        _drain_stream(reader)
+    except OSError as exc:
+        # Arrow reports a short message body or an invalid flatbuffer as an
+        # IOError.  On a pipe or socket that cannot be told from the peer going
+        # away and must propagate.  An in-memory buffer (the HTTP transport
+        # hands over the whole body as one) cannot fail with an I/O error, so
+        # there it means the bytes are malformed -- the same class of failure
+        # as ArrowInvalid, which callers already map to a protocol error.
+        if isinstance(reader_stream, pa.BufferReader):
+            raise pa.ArrowInvalid(str(exc)) from exc
+        raise
     _current_request_metadata.set(custom_metadata)
     # Stash the batch for access-log enrichment -- but only when the
     # transport has not already captured the raw wire bytes, which are
